@@ -71,7 +71,11 @@ finally:
 dst = f"/verif/seeded/{name}"
 if res.get("valid_seed"):
     os.makedirs(dst, exist_ok=True)
-    shutil.copy(f"{cand}/patch.diff", dst)
+    # a seed that had to be ported to a later /repo HEAD keeps its original patch.diff; the ported one is stored beside it
+    if os.path.exists(f"{dst}/patch.ported.diff"):
+        shutil.copy(f"{cand}/patch.diff", f"{dst}/patch.ported.diff")
+    else:
+        shutil.copy(f"{cand}/patch.diff", dst)
     shutil.copy(f"{cand}/demo.py", dst)
     meta = {}
     try:
